@@ -120,7 +120,8 @@ def _wb_vm(case, v):
 def _dv_right(case, v):
     # Sweep, Dihedral and Taper take the root of a symmetric surface to be the LAST spanwise node (y0 = le[-1, 1], xp = [-span, 0]);
     # on a right-half mesh (root first) they act with the wrong sense / not at all.
-    return case.get("kind") == "dv_halves" and case.get("dv") in ("sweep", "dihedral", "taper") and v["family"] == "dv_halves/mesh"
+    return (case.get("kind") == "dv_halves" and not case.get("full") and case.get("dv") in ("sweep", "dihedral", "taper") and v["family"] == "dv_halves/mesh"
+            and "right_half_mesh" in _tags(v))
 
 
 # ---------------------------------------------------------------------------------------------- C03
